@@ -23,6 +23,8 @@ import (
 	"git.defalsify.org/vise.git/state"
 
 	"visim/app"
+	"visim/pgfake"
+	"visim/simfs"
 )
 
 func init() {
@@ -110,6 +112,7 @@ type ExtCall struct {
 	Input string `json:"input"`
 	Lang  string `json:"lang,omitempty"`
 	Err   bool   `json:"err,omitempty"`
+	Out   string `json:"-"`
 }
 
 // ---------------------------------------------------------------------------------------
@@ -151,6 +154,13 @@ type Sess struct {
 	// LangSeen records the language observed on every lookup, in order.
 	Lookups []Lookup
 	KeepLookups bool
+	PosLog  []Pos // position after every request
+}
+
+type Pos struct {
+	Path   []string
+	Idx    uint16
+	NCalls int // external calls made so far
 }
 
 type Lookup struct {
@@ -165,7 +175,10 @@ type World struct {
 	Rec  *Recorder
 	Sess []*Sess
 	NewStore func(s *Sess) (db.Db, error) // backend factory (fresh handle on the same durable medium)
+	Peek     func(s *Sess) (db.Db, error)    // independent handle for observation (does not disturb the session's handle)
 	ResFor   func(s *Sess) resource.Resource // optional override of the resource stack
+	Disk     *simfs.FS
+	Pg       *pgfake.Server
 }
 
 func New(a *app.App, cfg Cfg) *World {
@@ -296,6 +309,7 @@ func (s *Sess) callExt(ctx context.Context, e *app.ExtSym, nodeSym string, input
 	if len(b.Reset) > 0 {
 		res.FlagReset = append([]uint32(nil), b.Reset...)
 	}
+	s.CallLog[len(s.CallLog)-1].Out = c
 	s.W.Rec.Add(s.Idx, "Ext", fmt.Sprintf("%s#%d", e.Name, k), fmt.Sprintf("%d", len(c)))
 	return res, nil
 }
@@ -394,6 +408,9 @@ func (s *Sess) build() error {
 	return nil
 }
 
+// Rebuild builds a fresh engine for the session without serving a request.
+func (s *Sess) Rebuild() error { return s.build() }
+
 // Drop discards the engine; the next request builds everything anew from the store.
 func (s *Sess) Drop() { s.Eng = nil; s.Pe = nil }
 
@@ -411,6 +428,7 @@ func (s *Sess) Request(input []byte, fresh bool) *Step {
 		}
 		if st.Panic != "" || berr != nil {
 			s.Steps = append(s.Steps, st)
+			s.PosLog = append(s.PosLog, Pos{})
 			return &s.Steps[len(s.Steps)-1]
 		}
 	}
@@ -473,6 +491,8 @@ func (s *Sess) Request(input []byte, fresh bool) *Step {
 	s.W.Rec.Add(s.Idx, "Done", fmt.Sprintf("cont=%v %s", st.Cont, res), st.Out)
 	s.cur = nil
 	s.Steps = append(s.Steps, st)
+	pp, pi := s.Position()
+	s.PosLog = append(s.PosLog, Pos{pp, pi, len(s.CallLog)})
 	return &s.Steps[len(s.Steps)-1]
 }
 
